@@ -44,7 +44,7 @@ func init() {
 		},
 		Components: map[string]string{
 			"App.ErrorHandler, mount, group mount, start-up flattening of sub-apps, router, DefaultErrorHandler": "real (instrumented: every map range over ordered keys is permuted from the tape)",
-			"fasthttp accept loop / worker pool": "stub (harness.Conn); request/response codecs real",
+			"fasthttp accept loop / worker pool": "stub (harness.Conn); request/response codecs real; in 15 % of the runs fasthttp's real connection loop (ServeConn) serves the requests over a simulated connection with tape-chosen segmentation and short reads",
 			"sync.Pool / sync.Once / mutexes":    "simulated by simrt",
 		},
 	})
